@@ -18,6 +18,8 @@
      (2k); velocimeter/gyro preserve length (2l); BALLQUAT, `_get_quat`, FRAMEQUAT are unit quaternions (2m-2o); a frame
      relative to itself has identity orientation (2p).  Limit sensors: `_limit_pos/_vel/_frc` write iff the row is a
      limit row with `efc_id == sensor_objid` AND row kind = sensor kind, value through the cutoff stage (2q-2t).
+     Cutoff post-pass `_tendon_actuator_force_cutoff` over an address list: one store of `apply_cutoff` of the
+     accumulated cell (2u); for a TOUCH sensor the cell ends at min(sum, cutoff) for cutoff > 0, unchanged otherwise (2v).
   3. energy kernels (K = ℝ unless noted): exact write list of the gravity kernel (generic K) = −m g·xipos, linear in g
      (3a-3c); tendon springs with the dead band, zero inside, ≥ 0 for linear k ≥ 0 (3d, 3e); slide/hinge, ball, free
      joint springs = poly_potential of the displacement / quaternion distance (3f, 3g); ½k x², ≥ 0, zero at the
@@ -25,6 +27,9 @@
   4. (in Props/C07Host.lean) gating on the host graph: how often energy_pos / energy_vel run in each of the 16 configurations of (ENERGY flag,
      SENSOR disable flag, e_potential sensor, e_kinetic sensor) (4.0, 4a); equals MuJoCo's rule in ALL 16 (4b
      `energy_gating`); d.energy zeroed iff flag off (4c); order of the energy kernels and of the sensor kernel (4d).
+  5. (in Props/C07Host.lean) the launches reading `m.sensor_touch_adr` are `_sensor_touch` then the cutoff post-pass (5a);
+     `_sensor_touch` and `_tendon_actuator_force` are each followed immediately by a cutoff post-pass over the same
+     address list (5b).
 
   SCOPE of the Spec: `pointAcc` is the classical mj_objectAcceleration formula; MuJoCo 3.13 additionally reports 0 for
   objects on bodies welded to the world (observed, C07Witness W6) — 2f, 2h (accelerometer), 2k describe MuJoCo for the
@@ -32,12 +37,15 @@
   ASSUMED (hypotheses): `site_xmat` is a proper rotation (2k, 2l); xquat / model frame quaternions have unit norm
   (2n-2p); CONTACT sensors never go through `_write_scalar` (true of sensor.py: `_sensor_acc` stores them directly).
 
-  FALSE of the code (Props/C07Witness.lean): touch sensors ignore their cutoff; with the ENERGY flag off d.energy is
+  FALSE of the code (Props/C07Witness.lean): with the ENERGY flag off d.energy is
   zeroed although an energy sensor computed it (MuJoCo keeps it); accelerometer/framelinacc on bodies welded to the world
   report −gravity (MuJoCo 3.13: 0); BALLQUAT of a zero quaternion is (0,0,0,1), MuJoCo gives
   (1,0,0,0).
   REPAIRED in /repo after this check found them (now theorems): limit sensors compared only the id, not the row kind
-  (2q-2t); ENERGY flag + energy sensor + sensors disabled left d.energy stale (4b).
+  (2q-2t); ENERGY flag + energy sensor + sensors disabled left d.energy stale (4b); touch sensors ignored their cutoff
+  (2u-2v, 5a-5b; what is NOT proved: that `_sensor_touch`'s atomic adds sum to MuJoCo's touch force — sampled — and that
+  no later kernel of `sensor_acc` overwrites a touch cell — the host extractor lists the later writers of d.sensordata,
+  their address sets are not modelled).
 
   MISSING (C07_partial): `_write_vector`, `_get_mat`, `_frame_pos`, `_frame_axis`, `_frame_linvel`, `_frame_angvel`, the
   dispatch kernels `_sensor_pos/_vel/_acc`, `_energy_pos_zero`, the tiled kinetic-energy kernel, `_sensor_tactile` and
@@ -530,6 +538,51 @@ example : _limit_pos (fun _ => 20) (fun _ => 0) (fun _ => 0) (fun _ => 0) (fun _
     (fun _ => 0) (fun _ => 0) (fun _ => 1) (fun _ _ => 3) (fun _ _ => 0) (fun _ _ => (-3 / 10 : ℝ)) (fun _ _ => 0)
     (fun _ _ => 0) 0 0 0 = [⟨"out", [0], WVal.f (-3 / 10), WKind.set⟩] := by
   rw [limit_pos_spec]; simp [isLimitRow, limitRowFeeds, applyCutoff, sgt, slit]
+
+/-! ## 2''. the cutoff post-pass over atomically accumulated sensors (`_tendon_actuator_force_cutoff`) -/
+
+/-- (2u) **the generic cutoff post-pass**: thread `(w, k)` of `_tendon_actuator_force_cutoff`, launched over an address
+    list `adrs` (`m.sensor_tendonactfrc_adr`, and since /repo commit "fix: touch sensors ignored sensor_cutoff" also
+    `m.sensor_touch_adr`), re-reads the accumulated cell `sensordata[w, sensor_adr[sid]]` of sensor `sid = adrs k` and
+    stores MuJoCo's `apply_cutoff` value of it into the same cell — exactly one store, for all inputs -/
+theorem cutoff_postpass_spec (stype sdt sadr : Int → Int) (scut : Int → ℝ) (adrs : Int → Int) (sin sout : Int → Int → ℝ)
+    (w k : Int) (hct : stype (adrs k) ≠ SENS_CONTACT) :
+    _tendon_actuator_force_cutoff stype sdt sadr scut adrs sin sout w k
+      = [⟨"out", [sadr (adrs k)],
+          WVal.f (applyCutoff (stype (adrs k)) (sdt (adrs k)) (scut (adrs k)) (sin w (sadr (adrs k)))), WKind.set⟩] := by
+  unfold _tendon_actuator_force_cutoff
+  simp only []
+  rw [write_scalar_spec _ _ _ _ _ _ _ hct]
+  simp [Write.renameAll, Write.rename]
+
+/-- (2v) **touch sensors end at `min(sum, cutoff)`**: a TOUCH sensor (datatype POSITIVE) whose cell holds the sum `s` of
+    the normal forces that `_sensor_touch` accumulated is left by the post-pass at `min(s, cutoff)` when `cutoff > 0` and
+    at `s` when `cutoff ≤ 0` — MuJoCo's `apply_cutoff` for mjSENS_TOUCH.
+    (Before /repo commit "fix: touch sensors ignored sensor_cutoff" no kernel of `sensor_acc` revisited the touch cells;
+    found by this property's check, formerly C07Witness W1.) -/
+theorem touch_cutoff_spec (stype sdt sadr : Int → Int) (scut : Int → ℝ) (adrs : Int → Int) (sin sout : Int → Int → ℝ)
+    (w k : Int) (ht : stype (adrs k) = SENS_TOUCH) (hd : sdt (adrs k) = POSITIVE) :
+    _tendon_actuator_force_cutoff stype sdt sadr scut adrs sin sout w k
+      = [⟨"out", [sadr (adrs k)],
+          WVal.f (if 0 < scut (adrs k) then min (sin w (sadr (adrs k))) (scut (adrs k)) else sin w (sadr (adrs k))), WKind.set⟩] := by
+  have hct : stype (adrs k) ≠ SENS_CONTACT := by rw [ht]; decide
+  have ht' : stype (adrs k) = 0 := ht
+  have hd' : sdt (adrs k) = 1 := hd
+  rw [cutoff_postpass_spec _ _ _ _ _ _ _ _ _ hct]
+  unfold applyCutoff
+  by_cases hc : 0 < scut (adrs k)
+  · simp [hc, ht', hd', sgt, slit, slt, min_eq_mjuMin]
+  · simp [hc, sgt, slit]
+
+/-- non-vacuity (the formerly failing case): accumulated force 34.3, cutoff 2.5 → the cell is left at 2.5; cutoff 0 → 34.3 -/
+example : _tendon_actuator_force_cutoff (fun _ => 0) (fun _ => 1) (fun _ => 0) (fun _ => (5 / 2 : ℝ)) (fun _ => 0)
+    (fun _ _ => (343 / 10 : ℝ)) (fun _ _ => 0) 0 0 = [⟨"out", [0], WVal.f (5 / 2), WKind.set⟩] := by
+  rw [touch_cutoff_spec _ _ _ _ _ _ _ _ _ rfl rfl]
+  norm_num
+example : _tendon_actuator_force_cutoff (fun _ => 0) (fun _ => 1) (fun _ => 0) (fun _ => (0 : ℝ)) (fun _ => 0)
+    (fun _ _ => (343 / 10 : ℝ)) (fun _ _ => 0) 0 0 = [⟨"out", [0], WVal.f (343 / 10), WKind.set⟩] := by
+  rw [touch_cutoff_spec _ _ _ _ _ _ _ _ _ rfl rfl]
+  norm_num
 
 /-! ## 3. energy -/
 
